@@ -136,6 +136,7 @@ type Case struct {
 	GetCollateral bool            `json:"get_collateral"`
 	CheckCRL      bool            `json:"check_crl"`
 	Embedded      bool            `json:"embedded_root"`
+	DefaultTime   bool            `json:"default_time,omitempty"` // leave Options.Now nil (the time of the call); only compared between runs, never judged by the reference
 	Roots         [][]byte        `json:"roots,omitempty"`
 	Times         [5]time.Time    `json:"times"`
 	Resp          map[string]Resp `json:"resp,omitempty"`
